@@ -64,9 +64,13 @@ Definition agree20g (cs : case20g) : bool :=
   list_eqb obs_group_eqb mgs ogs.
 
 (* ---------------------------------------------------------------- ports *)
-Definition case20p : Type := str * str * str * option (list (Z * Z)).
+(* (protocol, port_spec, syntax, observed port_list as runs | None = raised,
+    expectation: None | Some (what the spec DENOTES according to the harness' own reading of the property)) *)
+Definition case20p : Type := str * str * str * option (list (Z * Z)) * option (option (list (Z * Z))).
 Definition model20p (c : case20p) : option (list (Z * Z)) :=
-  let '(proto, spec, syntax, _) := c in
+  let '(proto, spec, syntax, _, _) := c in
   match l4_object proto spec syntax with Ok l => Some (runs l) | Raise _ => None end.
 Definition agree20p (c : case20p) : bool :=
-  let '(_, _, _, obs) := c in opt_eqb (list_eqb zz_eqb) (model20p c) obs.
+  let '(_, _, _, obs, expect) := c in
+  opt_eqb (list_eqb zz_eqb) (model20p c) obs &&
+  match expect with None => true | Some e => opt_eqb (list_eqb zz_eqb) e obs end.
